@@ -407,6 +407,36 @@ func c20Extremes(rc *RunCtx) {
 				}
 			}
 		}
+		// thresholds above the attester count (a genesis file may say so), met by every attester-manager request
+		for ti, cfgT := range []struct {
+			n int
+			t uint32
+		}{{2, 3}, {3, 5}, {2, 1 << 31}, {1, 2}, {4, 0xffffffff}, {2, 66076421}} {
+			g, err := StdEngine(rc, false, false, func(gs *ct.GenesisState, cfg *chain.Config) {
+				gs.AttesterList = nil
+				for i := 0; i < cfgT.n; i++ {
+					gs.AttesterList = append(gs.AttesterList, ct.Attester{Attester: AttesterPool[i].Spell(i + ti)})
+				}
+				gs.SignatureThreshold = &ct.SignatureThreshold{Amount: cfgT.t}
+			})
+			if err != nil {
+				continue
+			}
+			g.LightQueries = true
+			am := g.M.AM
+			for i := 0; i < cfgT.n; i++ {
+				g.Exec(Tx{Msgs: msgs1(&ct.MsgDisableAttester{From: am, Attester: AttesterPool[i].Spell(i + ti)}), Note: "C20 extremes: disable with the threshold above the attester count"})
+			}
+			g.Exec(Tx{Msgs: msgs1(&ct.MsgDisableAttester{From: am, Attester: AttesterPool[9].Spell(0)}), Note: "C20 extremes: disable an unknown attester"})
+			g.Exec(Tx{Msgs: msgs1(&ct.MsgEnableAttester{From: am, Attester: AttesterPool[8].Spell(1)}), Note: "C20 extremes: enable with the threshold above the attester count"})
+			for _, nt := range []uint32{0, 1, uint32(cfgT.n), uint32(cfgT.n) + 1, cfgT.t, 0xffffffff} {
+				g.Exec(Tx{Msgs: msgs1(&ct.MsgUpdateSignatureThreshold{From: am, Amount: nt}), Note: "C20 extremes: threshold update from a threshold above the attester count"})
+			}
+			nonce++
+			raw := StdInbound(nonce, 1, big.NewInt(3)).Bytes()
+			g.Exec(Tx{Msgs: msgs1(&ct.MsgReceiveMessage{From: Acct(UserIx), Message: raw, Attestation: g.Attest(raw, 0)}), Note: "C20 extremes: receive with the threshold above the attester count"})
+			rc.Cov.Cell("C20_extremes", "threshold-above-count")
+		}
 		// registry values of unusual length that only a genesis file can hold, met by otherwise valid traffic
 		if g, err := StdEngine(rc, false, false, func(gs *ct.GenesisState, cfg *chain.Config) {
 			gs.TokenMessengerList = nil
